@@ -199,7 +199,7 @@ __CPROVER_ensures(targetWeight >= TOTALW ==> __CPROVER_return_value == ub)
 __CPROVER_assigns()
 ''',
     prelude=PS, uses=['ps_at'],
-    lower=[rx(r'edgePrefixSum\[(mid) - 1 \+ nodeOffset\]', r'ps_at(edgePrefixSum, \1 - 1 + nodeOffset, /*ghost k=*/ \1)')],
+    lower=[rx(r'edgePrefixSum\[([^\]]+)\]', r'ps_at(edgePrefixSum, \1, /*ghost k = index + 1 - nodeOffset */ (\1) + 1 - nodeOffset)')],
     ghost_prefix='const uint64_t lb0 = lb, ub0 = ub;',
     loops={1: '''
 __CPROVER_assigns(lb, ub)
@@ -372,7 +372,7 @@ for NT, S in [('uint64_t', 'u64'), ('uint32_t', 'u32')]:
                index('scaleFactor', 'sf_at', 2),
                rx(r'\(weight \+ numBlocks - 1\) / numBlocks', 'gv_ceil_div(weight, numBlocks)', 1, 1),
                rx(r'blockWeight \* (blockLower|blockUpper)', r'gv_mul_target(blockWeight, \1)', 2, 2),
-               rx(r'edgePrefixSum\[(nodesLower|nodesUpper) - 1 \+ nodeOffset\]', r'ps_at(edgePrefixSum, \1 - 1 + nodeOffset, /*ghost k=*/ \1)', 2)],
+               rx(r'edgePrefixSum\[([^\]]+)\]', r'ps_at(edgePrefixSum, \1, /*ghost k = index + 1 - nodeOffset */ (\1) + 1 - nodeOffset)', 2)],
         harness_pre='g_N = numNodes; g_E = numEdges; g_nw = nodeWeight; g_ew = edgeWeight; g_eo = edgeOffset; g_no = nodeOffset; g_id = id; g_total = total;',
         backend='ib', timeout=400,
         witness='g_N == 4 && g_E == 6 && g_no == 0 && g_eo == 0 && g_nw == 0 && g_ew == 1 && g_T == 4 && g_L == 2 && g_EL == 4 && g_ELM1 == 2 && g_k == 2 && g_Ek == 4 && g_total == 2 && g_id == 0 && g_nb == 2 && g_bl == 0 && g_bu == 1 && g_B == 1 && g_bw == 4',
